@@ -184,6 +184,34 @@ def peer_over_the_wire(ctx, addr):
             ctx.traces_validated += 1
 
 
+def long_running(ctx):
+    """'all sequences of announcements': a long one - three exporters that have each used their whole template id range
+    (195 840 templates), then 300 re-announcements with another layout; every announced pair is asked for by a data set and
+    is decoded with its exporter's latest announcement"""
+    import os
+    from props import c10
+    for proto in ("ipfix", "v9"):
+        drv = c10.build(ctx, proto, race=False)
+        out = os.path.join(ctx.subdir("c04many_" + proto), "many.json")
+        rc, log, to = ctx.go_run(drv, "TestVerifManyTemplates", timeout=900, env={"VERIF_OUT": out, "VERIF_MANY": 1})
+        if to or rc != 0 or not os.path.exists(out):
+            why = next((l for l in log.split("\n") if l.startswith(("panic:", "fatal error:"))), None)
+            if why:
+                ctx.violation("%s: a cache of 195 840 templates: the process died: %s" % (codec.P[proto]["name"], why), {"log": log[-1500:]}, key=proto + ":many-died")
+                continue
+            raise vlib.Infra("many-templates driver failed:\n" + log[-1500:])
+        r = json.load(open(out))
+        ctx.count([proto, "long-running", r["pairs"]])
+        if r["unknown"] or r["stale"] or r["other"]:
+            ctx.violation("%s: after three exporters have each announced their whole template id range (%d pairs) and 300 of them again with another "
+                          "layout, %d pairs are unknown, %d are decoded with a superseded definition, %d otherwise wrong; first: %s"
+                          % (codec.P[proto]["name"], r["pairs"], r["unknown"], r["stale"], r["other"], r["first"]), {"proto": proto, "result": r},
+                          key=proto + ":many-templates")
+        else:
+            ctx.traces_validated += 1
+        ctx.extra.setdefault("long_running", {})[proto] = r
+
+
 def colliding_first_announcements(ctx, thorough):
     """'all interleavings': two exporters whose (address, template id) pairs share one cache key announce their templates for
     the first time at the same moment (two decoders released together), on a fresh cache, thousands of times; afterwards
@@ -424,6 +452,7 @@ def check(ctx):
     ctx.sample({"history": hists[len(hists) // 2], "exporters": a4})
     peer_over_the_wire(ctx, a4)
     colliding_first_announcements(ctx, thorough)
+    long_running(ctx)
     # ---- B: interleaved multi-exporter histories validated by the reference collector
     for proto in ("ipfix", "v9"):
         drv = codec.driver(ctx, proto)
